@@ -1,8 +1,8 @@
-(* C26 model runner.  One case per line:   <reg|sym> <mode octal> <oldlen> <newlen>
+(* C26 model runner.  One case per line:   <reg|sym> <mode octal> <oldlen> <newlen> <bare 0|1>
    (content bytes are abstract: old = oldlen times 1, new = newlen times 2).  Output: the trace of the fault-free
    run of the EXTRACTED run_wfb in the syntax the check derives from strace, then for every crash point
    k = 0..len the state of the path:
-     create:600 write:<n> stat:<follow|nofollow> fchmod:<mode> close rename | <k>=<old|new|other>:<mode> ... *)
+     create:600:<samedir|otherdir> write:<n> stat:<follow|nofollow> fchmod:<mode> close rename | <k>=<old|new|other>:<mode> ... *)
 open C26model
 let rec pos_of_int n = if n = 1 then XH else if n land 1 = 0 then XO (pos_of_int (n lsr 1)) else XI (pos_of_int (n lsr 1))
 let n_of_int n = if n = 0 then N0 else Npos (pos_of_int n)
@@ -12,7 +12,7 @@ let rec nat_of_int n = if n = 0 then O else S (nat_of_int (n - 1))
 let rec replicate n x = if n = 0 then [] else x :: replicate (n - 1) x
 let oct n = Printf.sprintf "%o" n
 let show = function
-  | SysCreate (_, _) -> "create:600"
+  | SysCreate (_, _, sd) -> if sd then "create:600:samedir" else "create:600:otherdir"
   | SysWrite (_, c) -> Printf.sprintf "write:%d" (List.length c)
   | SysFchmod (_, m) -> "fchmod:" ^ oct (int_of_n m)
   | SysClose _ -> "close"
@@ -23,11 +23,11 @@ let () =
   try while true do
     let line = input_line stdin in
     (match List.filter (fun s -> s <> "") (String.split_on_char ' ' line) with
-     | [kind; mode; ol; nl] ->
+     | [kind; mode; ol; nl; bare] ->
        let m = int_of_string ("0o" ^ mode) and ol = int_of_string ol and nl = int_of_string nl in
        let oldc = replicate ol (n_of_int 1) and newc = replicate nl (n_of_int 2) in
        let s0 = (if kind = "sym" then fs_symlink else fs_regular) oldc (n_of_int m) in
-       let e = env0 newc and fl = no_faults newc in
+       let e = env0 newc (bare = "1") and fl = no_faults newc in
        let r = run_wfb e fl s0 in
        let tr = r.trace in
        let st k =
